@@ -22,7 +22,8 @@ EXPLANATION = (
     "arms), the reconciliation and the missing-target report. _normalize_targets classifies by trailing separator "
     "only (no file-system predicate reachable). Optional revert filter and forbidden target states are truth tables. "
     "That _implied_need equals the least fixed point of the need definition for every graph, and that the executed "
-    "set equals the needed set, is NOT decided; the MAX algebra of the SQL formula is deliberately not matched."
+    "set equals the needed set, is NOT decided; the MAX algebra of the SQL formula is deliberately not matched. "
+    'Also: statements that flag steps for recomputation are not narrowed (single-conjunct stale-TARGET reset; recursive subtree CTEs without a detached filter; the edge-delete trigger flags suppliers); targets are normalised before the process changes directory; targets are reconciled after the startup rescans on a resumed database.'
 )
 ASSUMPTIONS = ["cached columns are recomputed when their inputs change (C10)", "the need definition's algebra is correct (not decided)"]
 
